@@ -3,7 +3,8 @@ import re
 import sys
 import unicodedata
 
-REPO_SRC = '/repo/src'
+import os
+REPO_SRC = os.path.join(os.environ.get('VERIF_REPO', '/repo'), 'src')   # VERIF_REPO: tooling only (seeded-change matrix on a scratch copy)
 if REPO_SRC not in sys.path:
     sys.path.insert(0, REPO_SRC)
 
